@@ -148,9 +148,12 @@ fn set_field_value_contract<const FT: usize, const VK: usize, const FOREIGN: boo
     let mut f2 = field_store2(ty::<FT>(), Type::Int);
     let s1 = unsafe { builder_over(&mut f1) }.build();
     let s2 = unsafe { builder_over(&mut f2) }.build();
-    let p0: i64 = kani::any();
+    // Map<Int> values have no leaf: the old one is the owned (odd leaf), the new one the borrowed
+    // (even leaf) representation, as constants (a symbolic representation makes CBMC explore the
+    // BTreeMap drop glue)
+    let p0: i64 = if FT == 5 { 1 } else { kani::any() };
     let p1: i64 = kani::any();
-    let x: i64 = kani::any();
+    let x: i64 = if VK == 5 { 0 } else { kani::any() };
     let had0: bool = kani::any();
     let had1: bool = kani::any();
     let (old_a, new_a) = (l1(p0), l1(x));
